@@ -66,6 +66,9 @@ VolumeInvariant == Abs(Sx(V)) = Abs(Sx(C))
 CentroidInBox == LET s == IF S2(V) > 0 THEN 1 ELSE -1  rs == {V[i][1] : i \in 1..Len(V)} IN
                  \A r \in rs : (\A q \in rs : r <= q) => 3 * s * S2(V) * r <= s * Sx(V)
 
-EmitCase == PrintT(ToJson([poly |-> poly, rot |-> rot, rev |-> rev, vertices |-> V, twice_area |-> Abs(S2(V)),
+\* the same polygon measured in another length unit (millimetre-sized cells, kilometre-sized ones): lengths x 10^e, the area
+\* x 10^2e, the volume x 10^3e - nothing in the formulas has a scale of its own
+UnitExps == <<0, -4, 3>>
+EmitCase == PrintT(ToJson([unit_exps |-> UnitExps, poly |-> poly, rot |-> rot, rev |-> rev, vertices |-> V, twice_area |-> Abs(S2(V)),
                            cr |-> <<Sx(V), 3 * S2(V)>>, cz |-> <<Sy(V), 3 * S2(V)>>, volume_over_pi |-> <<Abs(Sx(V)), 3>>]))
 =============================================================================
